@@ -3,6 +3,7 @@ mod backend;
 mod build;
 mod conc;
 mod hdr;
+mod lru;
 mod pure;
 mod seq;
 mod sim;
@@ -428,6 +429,16 @@ fn main() {
             write_lines(&format!("{}/seq.impl", out), &imp);
             println!("malformed cases={}", n);
         }
+        "lru" => {
+            // correspondence of the cache model with the real AsyncLruCache
+            let ops: usize = m.get("ops").and_then(|s| s.parse().ok()).unwrap_or(60);
+            let mut lines = Vec::new();
+            for id in 0..n {
+                lines.extend(lru::gen_case(seed, id, ops));
+            }
+            write_lines(&format!("{}/lru.impl", out), &lines);
+            println!("lru cases={}", n);
+        }
         "backend" => {
             // C19: request sequences on every backend (+ requests for the Lean host-file model)
             let dir = backend::scratch_dir();
@@ -514,6 +525,11 @@ fn main() {
                     let run_id = id * 100 + sc;
                     if skip.contains(&run_id) {
                         continue;
+                    }
+                    if let Some(o) = m.get("only").and_then(|s| s.parse::<usize>().ok()) {
+                        if o != run_id {
+                            continue;
+                        }
                     }
                     progress.store(run_id, std::sync::atomic::Ordering::Relaxed);
                     let mut lines: Vec<String> = Vec::new();
